@@ -17,7 +17,7 @@ def kindOf (s : List Char) : Kind :=
 def depOf (j : Json) : Dep :=
   match j.getStr? with
   | .ok s => { to := s.toList }
-  | .error _ => { to := charsD j "map", map := true }
+  | .error _ => if (j.getObjVal? "arr").isOk then { to := charsD j "arr", arr := true } else { to := charsD j "map", map := true }
 
 def nodeOf (j : Json) : Node :=
   { name := charsD j "name", kind := kindOf (charsD j "kind"), deps := (listD j "deps").map depOf, attrs := boolD j "attrs", ci := boolD j "ci" }
@@ -43,18 +43,18 @@ def judgePost (g : Graph) (impl : Json) : Json :=
     (outs.find? fun o => charsD o "name" == n).map fun o => (namesD o "derives").contains "validator::Validate".toList
   -- serde direction is decided by usage for Schema structs and enums only; the other kinds have a fixed mode
   let serdeTarget (n : Comp.Name) : Bool := g.any fun x => x.name == n && (x.kind == .schema || x.kind == .enum)
-  let bad : List (Bool × String) := g.flatMap fun nd =>
+  let bad : List (Option String × String) := g.flatMap fun nd =>
     if nd.kind == .alias then [] else
     let nestedI := match (outs.find? fun o => charsD o "name" == nd.name) with
       | some o => (listD o "nested").map fun (b : Json) => match b.getBool? with | .ok x => x | .error _ => false
       | none => []
     (nd.deps.zipIdx.flatMap fun (d, i) =>
       (["ser", "de"].flatMap fun k =>
-        if cap k nd.name == some true && cap k d.to == some false && serdeTarget d.to then [(d.map, s!"{String.ofList nd.name} has {k} but its member type {String.ofList d.to} has not")] else []) ++
-      (if nestedI.getD i false && derivesVal d.to != some true then [(false, s!"{String.ofList nd.name}.f{i} is nested but {String.ofList d.to} does not derive Validate")] else []))
+        if cap k nd.name == some true && cap k d.to == some false && serdeTarget d.to then [((if d.map then some "KnownSerdeMapEdge" else if d.arr then some "KnownSerdeNestedArrayEdge" else none), s!"{String.ofList nd.name} has {k} but its member type {String.ofList d.to} has not")] else []) ++
+      (if nestedI.getD i false && derivesVal d.to != some true then [((none : Option String), s!"{String.ofList nd.name}.f{i} is nested but {String.ofList d.to} does not derive Validate")] else []))
   if bad.isEmpty then verdict true []
-  else if bad.all (·.1) then verdict false ["KnownSerdeMapEdge"] (bad.head!.2)
-  else verdict false [] ((bad.filter (!·.1)).head!.2)
+  else if bad.all (·.1.isSome) then verdict false (bad.filterMap (·.1)).eraseDups (bad.head!.2)
+  else verdict false [] ((bad.filter (·.1.isNone)).head!.2)
 
 def postOp : Handler := fun req => do
   let inp ← field req "in"
@@ -67,19 +67,19 @@ def postOp : Handler := fun req => do
   | some u =>
     let model := Json.mkObj [("types", Json.arr ((g.map (typeOut g server u)).map typeOutJson).toArray), ("uses", strList (uses g server u))]
     let implN := Json.mkObj [("types", fieldD impl "types" Json.null), ("uses", fieldD impl "uses" Json.null)]
-    let hasMap := g.any fun nd => nd.deps.any (·.map)
+    let hasMap := g.any fun nd => nd.deps.any fun d => d.map || d.arr
     let cyc := g.any fun nd => nd.deps.any fun d => d.to == nd.name
     let br := (if hasMap then "map+" else "") ++ (if cyc then "self+" else "") ++ (if server then "server" else "client") ++
       (if g.any (·.attrs) then "+attrs" else "") ++ s!"+n{g.length}"
     pure (Json.mkObj [("model", model), ("match", Json.bool (model == implN)), ("judge", judgePost g impl), ("branch", Json.str br)])
 
-def refOf (j : Json) : Ref := { to := charsD j "to", map := boolD j "map", vec := boolD j "vec" }
+def refOf (j : Json) : Ref := { to := charsD j "to", map := boolD j "map", vec := boolD j "vec", arr := boolD j "arr", wrap := boolD j "wrap" }
 def fldOf (j : Json) : Fld :=
-  { name := charsD j "name", refs := (listD j "refs").map refOf, nested := boolD j "nested", len := boolD j "len", sep := boolD j "sep", sepStr := boolD j "sepStr", dur := boolD j "dur" }
+  { name := charsD j "name", refs := (listD j "refs").map refOf, nested := boolD j "nested", len := boolD j "len", sep := boolD j "sep", sepStr := boolD j "sepStr", dur := boolD j "dur", opt := boolD j "opt", serdeAsAttr := boolD j "serdeAsAttr", asOpt := boolD j "asOpt", hdrOpt := boolD j "hdrOpt" }
 def itemOf (j : Json) : Item :=
   { file := charsD j "file", kind := charsD j "kind", name := charsD j "name", vis := charsD j "vis", ser := boolD j "ser", de := boolD j "de",
     val := boolD j "val", bare := namesD j "bare", fields := (listD j "fields").map fldOf, variants := namesD j "variants",
-    evstream := boolD j "evstream", intoResp := boolD j "intoResp", params := namesD j "params", bytesBody := boolD j "bytesBody", optBody := boolD j "optBody" }
+    evstream := boolD j "evstream", respEnum := boolD j "respEnum", reqStruct := boolD j "reqStruct", serdeAs := boolD j "serdeAs", intoResp := boolD j "intoResp", params := namesD j "params", bytesBody := boolD j "bytesBody", optBody := boolD j "optBody" }
 
 def objLists (j : Json) : List (Comp.Name × List Comp.Name) :=
   match j.getObj? with
@@ -96,7 +96,10 @@ def errOf (j : Json) : RErr :=
 def violStr : Viol → String
   | .undefinedType n => s!"type {String.ofList n} is mentioned but not defined"
   | .privateAcross f n => s!"{String.ofList f}.rs names {String.ofList n}, which is private to types.rs"
-  | .serde it t ser m => s!"{String.ofList it} has {if ser then "Serialize" else "Deserialize"} but its member type {String.ofList t} has not{if m then " (through a map)" else ""}"
+  | .serdeAsMismatch it f => s!"{String.ofList it}.{String.ofList f}: the serde_as adapter and the member type disagree about Option (or the struct lacks #[serde_as])"
+  | .bodyCap it t ser mp ar w => s!"{String.ofList it}.body is {if ser then "sent" else "extracted"} as JSON/form but {String.ofList t} has no {if ser then "Serialize" else "Deserialize"}{if mp then " (through a map)" else if ar then " (through a nested array)" else if w then " (wrapped body type)" else ""}"
+  | .headerOptMismatch it => s!"{String.ofList it}: the HeaderMap conversion reads a non-Option member with `if let Some(..)`"
+  | .serde it t ser m a w => s!"{String.ofList it} has {if ser then "Serialize" else "Deserialize"} but its member type {String.ofList t} has not{if m then " (through a map)" else if a then " (through a nested array)" else if w then " (wrapped payload of a response enum)" else ""}"
   | .nestedNoValidate it t => s!"{String.ofList it}: validate(nested) on a member of type {String.ofList t}, which has no Validate"
   | .lengthNeedsSer it t => s!"{String.ofList it}: validate(length) on Vec<{String.ofList t}>, and {String.ofList t} has no Serialize"
   | .dupParam it => s!"{String.ofList it}::new has two parameters of one name"
@@ -110,7 +113,10 @@ def violStr : Viol → String
   | .aliasCycle it => s!"type alias {String.ofList it} expands to itself"
   | .missingImport n => s!"derive({String.ofList n}) is used unqualified but not imported"
 
-def whyOf (m : Mod) : String := ", ".intercalate ((violations m).map violStr |>.take 4)
+/-- the violations without a class first (they are what makes a verdict a VIOLATION) -/
+def whyOf (m : Mod) : String :=
+  let vs := violations m
+  ", ".intercalate (((vs.filter fun v => (classOf m v).isNone) ++ (vs.filter fun v => (classOf m v).isSome)).map violStr |>.eraseDups |>.take 6)
 
 def genOp : Handler := fun req => do
   let inp ← field req "in"
